@@ -570,6 +570,34 @@ const DIALECT_STMTS: &[(&str, &str, &str, &str, &str)] = &[
     ("luau", "", "local unused_h: number = 1", "\n", "unused_variable"),
     ("lua51", "", "local unused_i = 1", "\n", "unused_variable"),
     ("lua51", "do\n  print(1)\n  ", "print(2)", " end\n", "multiple_statements"),
+    // one statement per lint name: whatever the name looks like (digits, length), a filter naming it covers its diagnostics
+    ("lua51", "local a, b = 1, 2\n", "a = b b = a", "\nprint(a, b)\n", "almost_swapped"),
+    ("lua51", "", "print(\"\\q\")", "\n", "bad_string_escape"),
+    ("lua51", "local x = 1\n", "print(x == 0/0)", "\n", "compare_nan"),
+    ("lua51", "local x = 1\n", "print(x == {})", "\n", "constant_table_comparison"),
+    ("lua51", "local x = {}\n", "print(table.getn(x))", "\n", "deprecated"),
+    ("lua51", "", "print({ a = 1, a = 2 })", "\n", "duplicate_keys"),
+    ("lua51", "local x = 1\n", "if x then end", "\n", "empty_if"),
+    ("lua51", "local x = 1\n", "while x do end", "\n", "empty_loop"),
+    ("lua51", "", "_G.some_field = 1", "\n", "global_usage"),
+    ("lua51", "local x = 1\n", "if x then print(1) else print(1) end", "\n", "if_same_then_else"),
+    ("lua51", "local x = 1\n", "if x then print(1) elseif x then print(2) end", "\n", "ifs_same_cond"),
+    ("lua51", "", "print(math.floor())", "\n", "incorrect_standard_library_use"),
+    ("lua51", "local function f(a) return a end\n", "f(1, 2)", "\n", "mismatched_arg_count"),
+    ("lua51", "", "print({ 1, a = 2 })", "\n", "mixed_table"),
+    ("lua51", "local co = nil\n", "coroutine.status(co)", "\n", "must_use"),
+    ("lua51", "local x = 1\n", "if (x) then print(1) end", "\n", "parenthese_conditions"),
+    ("lua51", "local x = 1\nprint(x)\n", "local x = 2", "\nprint(x)\n", "shadowing"),
+    ("lua51", "local x = {}\n", "for i = #x, 1 do print(i) end", "\n", "suspicious_reverse_loop"),
+    ("lua51", "local x = 1\n", "print(type(x == \"a\"))", "\n", "type_check_inside_call"),
+    ("lua51", "", "local p, q = 1, 2, 3", "\nprint(p, q)\n", "unbalanced_assignments"),
+    ("lua51", "", "print(undefined_j)", "\n", "undefined_variable"),
+    ("lua51", "", "unscoped_k = 1", "\n", "unscoped_variables"),
+    ("luau", "local src = {}\n", "local t = {}", "\nfor k, v in pairs(src) do t[k] = v end\nprint(t)\n", "manual_table_clone"),
+    ("roblox+", "", "local c = Color3.new(255, 0, 0)", "\nprint(c)\n", "roblox_incorrect_color3_new_bounds"),
+    ("roblox+", "", "local e = Roact.createElement(\"Frame\", { Bogus = 1 })", "\nprint(e)\n", "roblox_incorrect_roact_usage"),
+    ("roblox+", "", "local u = UDim2.new(1, 0, 1, 0)", "\nprint(u)\n", "roblox_manual_fromscale_or_fromoffset"),
+    ("roblox+", "", "local u = UDim2.new(1, 1)", "\nprint(u)\n", "roblox_suspicious_udim2_new"),
 ];
 
 fn canon_diag(d: &CheckerDiagnostic, shift_from: usize, shift: i64) -> String {
@@ -581,9 +609,19 @@ fn canon_diag(d: &CheckerDiagnostic, shift_from: usize, shift: i64) -> String {
 /// start inside that statement change (removed / re-labelled), whatever kind of statement it is and whatever the dialect
 pub fn run_dialects(out: &mut Out) {
     for (libname, before, stmt, after, lint) in DIALECT_STMTS {
-        let lib = match StandardLibrary::from_name(libname) {
-            Some(l) => l,
-            None => continue,
+        let lib = if *libname == "roblox+" {
+            // the Roblox base library under the name the Roblox-only lints test for, with a class table and the element constructors
+            let mut extra: StandardLibrary = serde_yaml::from_str(
+                "name: roblox\nglobals:\n  Roact.createElement:\n    args:\n      - type: any\n      - type: any\n        required: false\nroblox_classes:\n  Frame:\n    superclass: Instance\n    properties: []\n    events: []\n  Instance:\n    superclass: \"<<<ROOT>>>\"\n    properties:\n      - Name\n    events: []\n",
+            )
+            .unwrap();
+            extra.extend(StandardLibrary::roblox_base());
+            extra
+        } else {
+            match StandardLibrary::from_name(libname) {
+                Some(l) => l,
+                None => continue,
+            }
         };
         let (version, _) = lib.lua_version();
         let checker: Checker<toml::value::Value> = Checker::new(CheckerConfig::default(), lib).unwrap();
